@@ -261,19 +261,23 @@ Fixpoint read_vals (fuel : nat) (cnt : Z) (acc : list Z) (n : N) : dec (list Z *
   | S f => '(v, m) <- read32 ;; read_vals f (cnt - 1) (v :: acc) (n + m)%N
   end.
 
-(* palette.ReadFrom.  A size above the capacity allocates a slice of exactly that size; a negative
-   size is refused with an error (guard added by the fix: commit ca29854) *)
+(* palette.ReadFrom.  A negative size is refused with an error (fix ca29854); so is a size above the
+   1<<bits entries a palette of this width can index (fix 5ccdbc5: tested BEFORE make([]T, size), so
+   that a hostile length allocates nothing); a size above the capacity allocates a slice of exactly
+   that size *)
 Definition eNegPal : N := 5.
-Definition read_sized (fuel : nat) (cap : Z) (mk : list Z -> Z -> pal) : dec (pal * N) :=
+Definition eBigPal : N := 6.
+Definition read_sized (fuel : nat) (cap pb : Z) (mk : list Z -> Z -> pal) : dec (pal * N) :=
   '(size, n) <- read32 ;;
   if size <? 0 then Fail eNegPal
+  else if 2 ^ pb <? size then Fail eBigPal
   else '(vs, m) <- read_vals fuel size [] 0%N ;; Ret (mk vs (Z.max cap size), (n + m)%N).
 
 Definition pal_read (fuel : nat) (p : pal) : dec (pal * N) :=
   match p with
   | PSingle _ => '(v, n) <- read32 ;; Ret (PSingle v, n)
-  | PLinear _ cap pb => read_sized fuel cap (fun vs cp => PLinear vs cp pb)
-  | PHash _ cap pb => read_sized fuel cap (fun vs cp => PHash vs cp pb)
+  | PLinear _ cap pb => read_sized fuel cap pb (fun vs cp => PLinear vs cp pb)
+  | PHash _ cap pb => read_sized fuel cap pb (fun vs cp => PHash vs cp pb)
   | PGlobal => Ret (PGlobal, 0%N)
   end.
 
